@@ -248,7 +248,7 @@ func verifConstRound(c any) (any, bool, bool) {
 // C09: compiled code is shared read-only between VMs. All fields of Code are unexported; the functions that write
 // them (directly, through an element of a slice field, or through the field of a loop record) are the
 // compiler's own construction functions and the loader - none of them is reachable from package vm (scan there).
-//@ scan[C09.code.writers] C09 fieldwriters Code.*: compiler.(*Code).addName compiler.(*Code).newChild compiler.(*Compiler).Compile compiler.(*Compiler).changeOperand compiler.(*Compiler).compileBlock compiler.(*Compiler).compileFor compiler.(*Compiler).compileForCondition compiler.(*Compiler).compileForIn compiler.(*Compiler).compileForRange compiler.(*Compiler).compileFunctionBlock compiler.(*Compiler).compilePipe compiler.(*Compiler).compileSimpleFor compiler.(*Compiler).constant compiler.(*Compiler).emit compiler.(*Compiler).startLoop compiler.(*loop).end compiler.New compiler.codeFromState
+//@ scan[C09.code.writers] C09 fieldwriters Code.*: compiler.(*Code).addName compiler.(*Code).newChild compiler.(*Compiler).Compile compiler.(*Compiler).changeOperand compiler.(*Compiler).compileBlock compiler.(*Compiler).compileCall compiler.(*Compiler).compileFor compiler.(*Compiler).compileForCondition compiler.(*Compiler).compileForIn compiler.(*Compiler).compileForRange compiler.(*Compiler).compileFunctionBlock compiler.(*Compiler).compileObjectCall compiler.(*Compiler).compilePipe compiler.(*Compiler).compileSimpleFor compiler.(*Compiler).constant compiler.(*Compiler).emit compiler.(*Compiler).startLoop compiler.(*loop).end compiler.New compiler.codeFromState
 
 // C09: package compiler has no package-level variable that is written outside initialisers.
 //@ scan[C09.globals.compiler] C09 pkgglobals github.com/risor-io/risor/compiler:
